@@ -17,6 +17,8 @@ from unittest import mock
 
 import torch
 
+torch.set_num_threads(1)
+
 from vlib import cb, cl, cn, co, cp, cz, coq_eval_bools, coq_eval_print, exc_kind, load_corpus, shrink
 
 IMPORTS = "From PV Require Import C16.Model C16.Spec.\n"
@@ -138,7 +140,7 @@ def _warm_up(workdir):
     m, o = _mk(0)
     m(torch.zeros(1, 1)).sum().backward()
     o.step()
-    f = os.path.join(str(workdir), "warm.pt")
+    f = os.path.join(str(workdir), "warm%d.pt" % os.getpid())
     torch.save(o.state_dict(), f)
     o.load_state_dict(torch.load(f, map_location="cpu"))
     os.remove(f)
@@ -284,12 +286,28 @@ def run_schedule_impl(case, workdir, crashes):
         shutil.rmtree(d, ignore_errors=True)
 
 
+_UNINT = {}
+
+
+def _base_key(case):
+    return json.dumps([case["klb"], case["fmt"], case["bt"], case.get("ctl", {}), case["mets"]], sort_keys=True)
+
+
+def _unint(case, workdir):
+    k = _base_key(case)
+    if k not in _UNINT:
+        if len(_UNINT) > 2000:
+            _UNINT.clear()
+        _UNINT[k] = run_schedule_impl(case, workdir, [])
+    return _UNINT[k]
+
+
 def run_impl(case, workdir):
     _warm_up(workdir)
     with warnings.catch_warnings():
         warnings.simplefilter("ignore")
         try:
-            u_obs, u_ros, u_notes, u_calls = run_schedule_impl(case, workdir, [])
+            u_obs, u_ros, u_notes, u_calls = _unint(case, workdir)
             if case["crashes"]:
                 obs, ros, notes, _ = run_schedule_impl(case, workdir, case["crashes"])
             else:
@@ -477,8 +495,43 @@ def total_calls(case, workdir):
     _warm_up(workdir)
     with warnings.catch_warnings():
         warnings.simplefilter("ignore")
-        obs, _, _, _ = run_schedule_impl(c, workdir, [])
+        obs, _, _, _ = _unint(c, workdir)
     return sum(len(ops) for ops, _ in obs[0]["log"])
+
+
+def _work(args):
+    """pool worker: a chunk of cases that share their uninterrupted run"""
+    cases, workdir = args
+    torch.set_num_threads(1)
+    return [run_impl(c, workdir) for c in cases]
+
+
+def run_impl_many(cases, workdir):
+    """implementation runs, grouped by (parameters, history), over a process pool"""
+    import multiprocessing as mp
+    jobs = max(1, min(int(os.environ.get("VERIF_JOBS", "16")) // 2, os.cpu_count() or 1, 8))
+    groups = {}
+    for i, c in enumerate(cases):
+        groups.setdefault(_base_key(c), []).append(i)
+    chunks, cur = [], []
+    for idx in groups.values():
+        cur += idx
+        if len(cur) >= 24:
+            chunks.append(cur)
+            cur = []
+    if cur:
+        chunks.append(cur)
+    outs = [None] * len(cases)
+    if jobs == 1 or len(cases) < 40:
+        for ch in chunks:
+            for i, o in zip(ch, _work(([cases[i] for i in ch], str(workdir)))):
+                outs[i] = o
+        return outs
+    with mp.get_context("spawn").Pool(jobs) as pool:
+        for ch, res in zip(chunks, pool.imap(_work, [([cases[i] for i in ch], str(workdir)) for ch in chunks])):
+            for i, o in zip(ch, res):
+                outs[i] = o
+    return outs
 
 
 def gen_cases(chk):
@@ -631,11 +684,10 @@ def run(chk, cases=None):
             c = dict(c.get("case", c))
             c["stream"] = "corpus"
             cases.append(c)
-    outs, terms, sterms = [], [], []
-    for c in cases:
-        stream = c.pop("stream", "random")
-        out = run_impl(c, chk.workdir)
-        outs.append(out)
+    terms, sterms = [], []
+    streams = [c.pop("stream", "random") for c in cases]
+    outs = run_impl_many(cases, chk.workdir)
+    for c, stream, out in zip(cases, streams, outs):
         terms.append(model_term(c, out))
         sterms.append(spec_term(c, out))
         chk.note_case(c, nontrivial(c, out), stream)
